@@ -21,7 +21,7 @@ impl<R> Reader<R> {
     }
 //@end
 
-//@extract reader::Reader::buffer_position | src/reader/mod.rs :: impl<R> Reader<R> :: fn buffer_position | serves=C03,C08,C12
+//@extract reader::Reader::buffer_position | src/reader/mod.rs :: impl<R> Reader<R> :: fn buffer_position | serves=C03,C08,C12,C16
  fn buffer_position(&self) -> (r: u64)
         requires self.state.state is InsideMarkup ==> self.state.offset >= 1
         ensures r == self.bufpos()
@@ -36,7 +36,7 @@ impl<R> Reader<R> {
     }
 //@end
 
-//@extract reader::Reader::error_position | src/reader/mod.rs :: impl<R> Reader<R> :: fn error_position | serves=C03
+//@extract reader::Reader::error_position | src/reader/mod.rs :: impl<R> Reader<R> :: fn error_position | serves=C03,C16
  fn error_position(&self) -> (r: u64)
         ensures r == self.state.last_error_offset
  {
@@ -477,7 +477,7 @@ impl<'a> Reader<&'a [u8]> {
     }
 //@end
 
-//@extract slice_reader::Reader::read_to_end | src/reader/slice_reader.rs :: impl<'a> Reader<&'a [u8]> :: fn read_to_end | serves=C03,C05,C12 expand=read_to_end macro_files=src/reader/mod.rs
+//@extract slice_reader::Reader::read_to_end | src/reader/slice_reader.rs :: impl<'a> Reader<&'a [u8]> :: fn read_to_end | serves=C03,C05,C12,C16 expand=read_to_end macro_files=src/reader/mod.rs
  #[verifier::loop_isolation(false)]
  #[verifier::allow_complex_invariants]
  pub(crate) fn read_to_end(&mut self, end: QName) -> (r: Result<Span>)
@@ -652,7 +652,7 @@ impl<R: BufRead> Reader<R> {
     }
 //@end
 
-//@extract buffered_reader::Reader::read_to_end_into | src/reader/buffered_reader.rs :: impl<R: BufRead> Reader<R> :: fn read_to_end_into | serves=C03,C05,C12 expand=read_to_end macro_files=src/reader/mod.rs
+//@extract buffered_reader::Reader::read_to_end_into | src/reader/buffered_reader.rs :: impl<R: BufRead> Reader<R> :: fn read_to_end_into | serves=C03,C05,C12,C16 expand=read_to_end macro_files=src/reader/mod.rs
  #[verifier::loop_isolation(false)]
  #[verifier::allow_complex_invariants]
  pub(crate) fn read_to_end_into(&mut self, end: QName, buf: &mut Vec<u8>) -> (r: Result<Span>)
